@@ -9,6 +9,7 @@ import (
 	"fmt"
 	"github.com/f1bonacc1/process-compose/src/vrt"
 	"os"
+	"path"
 	"runtime"
 	"sort"
 	"strconv"
@@ -131,7 +132,12 @@ func TestWorker(t *testing.T) {
 				fmt.Fprintf(realStdout, "%d %s k=%d %s\n", i, sc.ID, sc.K, sc.Note)
 				continue
 			}
-			if *fOnly != "" {
+			if g := os.Getenv("VH_ONLY_GLOB"); g != "" {
+				// development aid: restrict every shard to the scenarios matching a glob
+				if ok, _ := path.Match(g, sc.ID); !ok || i%sn != si {
+					continue
+				}
+			} else if *fOnly != "" {
 				if sc.ID != *fOnly {
 					continue
 				}
